@@ -770,13 +770,15 @@ class Evaluator:
 
     def n_call(self, node):
         func = self.ev(node[1])
+        # "like in Python": positional arguments, then the *iterable (Python processes it before the keyword
+        # arguments even when it is written after them), then keyword arguments, then the **mapping
         args = [self.ev(x) for x in node[2]]
-        kwargs = {}
-        for k, v in node[3]:
-            kwargs[k] = self.ev(v)
         if node[4] is not None:
             dyn = self.ev(node[4])
             args.extend(dyn)
+        kwargs = {}
+        for k, v in node[3]:
+            kwargs[k] = self.ev(v)
         if node[5] is not None:
             dynk = self.ev(node[5])
             if not isinstance(dynk, dict):
